@@ -8,6 +8,13 @@ tie    : translator tools/gen_depack_limits.py (allocation sites + ceiling token
          LIBXMP_DEPACK_LIMIT / MAX_SAMPLE_SIZE) regenerated on every run; kernel-call counts observed by
          harness/c01_window.c (samples per call ≤ tick size); IFF walker: harness/c02_iff.c (iff.c with recording
          hio wrappers) vs lean/Drv/C02.lean on generated chunked files (tools/c02_iff.py)
+oracle : harness/c02_play.c on the uninstrumented build: (a) generated modules whose restart position / jump targets /
+         order tails are pattern-less or marker orders (XM restart field, MOD restart byte, IT and S3M markers and Bxx),
+         IT row-delay modules and one small corpus file per recognised format are loaded and PLAYED until two passes
+         are complete, under an alarm and a CPU limit; (b) truncation sweep: the smallest corpus file of every
+         recognised format (~90), memory test + load of every prefix 0..768, every 5th up to 4096 and 200 lengths
+         spread over the rest (thorough: every prefix up to 64 KiB + 4000 spread); (c) Unreal packages with boundary
+         counts / lengths / offsets, unmodified, through the memory and callback entry points
 search : harness/c01_fuzz.c in `res` mode on an uninstrumented -O1 build with a wrapped allocator: CPU time,
          peak live heap and the biggest single request per case, on mutated corpus files (length/count fields
          inflated, truncations, splices) and on generated decompression bombs (gzip, zip, xz, bzip2)
@@ -48,7 +55,10 @@ MANIFEST = dict(
          "generated list of ceiling sites (now including uncompress.c). CPU time and memory of the ~110 format parsers' bodies and of the "
          "entropy decoders (inflate, LZMA2, bzip2 BWT/Huffman, LZX/LHA/ARC bit coders, MMCMP bit coder) are MEASURED, not proved: per case "
          "CPU seconds, peak live heap and largest single request on mutated corpus inputs, declared-size liars and generated decompression "
-         "bombs (gzip, xz, bzip2, compress code-stream bombs), against limits proportional to the bytes supplied plus the fixed ceilings.",
+         "bombs (gzip, xz, bzip2, compress code-stream bombs, MMCMP rewrite bomb), against limits proportional to the bytes supplied plus "
+         "the fixed ceilings; in addition every truncation point of one small file per recognised format (~90 formats) is loaded, and "
+         "generated restart-position / marker-order / row-delay modules plus one file per format are played through their end twice, "
+         "under an alarm and the CPU limit.",
     note="Trusted: Lean kernel; the C08/C09/C03/C20 models the work theorems are stated over (their ties to the C are the correspondences of "
          "those checks: the step functions of XmpModel/WorkBound.lean are proved equal to them, no new trust); model XmpModel/IffWalk.lean "
          "(tied here: harness/c02_iff.c compiles iff.c with recording hio wrappers and compares return value, number of loop tests and every "
@@ -62,7 +72,9 @@ MANIFEST = dict(
          "XZ_MAX_OUTPUT, miniz allocation caps, per-iteration cost of loader bodies. Scan / set_position / tick-size / sample-allocation bounds "
          "are proved under C18, C17, C16, C20 and re-exported (Xmp.C02.C02_next_order_terminates, C02_play_frame_returns, "
          "C02_set_position_terminates, C02_scan_terminates, C02_ticksize_bound, C02_sample_alloc_le); their model-to-code ties remain those "
-         "of the owning checks.",
+         "of the owning checks. The OrdWF hypothesis of C02_next_order_terminates / C02_play_frame_returns (every kept sequence reaches a "
+         "pattern) is not derived from the loader + scan (libxmp_scan_sequences is not modelled): it is monitored by C16 on every loaded "
+         "module and, for its two disjuncts visible through the public API, by harness/c02_play.c on every module played here.",
     technique="Lean 4 proofs of loop progress / work bounds over the executable depacker and IFF models + generated ceiling list + "
               "model-vs-real correspondence for the IFF walker + measured CPU/heap search",
     design_ref="DESIGN.md section 4 C02",
@@ -187,6 +199,32 @@ def run_intact_group(args):
     return rc, cpu, err[-600:], files, (last[-1] if last else "")
 
 
+def run_play_group(args):
+    exe, maxframes, files = args
+    rc, out, err = vlib.run_exe(exe, ["play", str(maxframes)] + files, timeout=1200)
+    return rc, out.decode("latin-1"), err[-600:], files
+
+
+def run_trunc_group(args):
+    exe, params, files = args
+    rc, out, err = vlib.run_exe(exe, ["trunc"] + [str(x) for x in params] + files, timeout=3600)
+    return rc, out.decode("latin-1"), err[-600:], files
+
+
+def corpus_by_format(exe, scratch):
+    """one small corpus file of every format xmp_test_module recognises (the C01 harness's `types` mode)"""
+    files = sorted(f for f in vlib.corpus_files() if os.path.getsize(f) < 3000000)
+    rc, out, err = vlib.run_exe(exe, ["1", "0", "1", scratch, "types"] + files, timeout=900)
+    by = {}
+    for m in re.finditer(r"^type (.*)\t(.*)$", out.decode("latin-1"), re.M):
+        by.setdefault(m.group(2), []).append(m.group(1))
+    # the smallest file of at least 1 KiB (regression files of a few bytes have no pattern / sample data to cut), else the largest
+    def pick(v):
+        big = [f for f in v if os.path.getsize(f) >= 1024]
+        return min(big, key=lambda f: (os.path.getsize(f), f)) if big else max(v, key=lambda f: (os.path.getsize(f), f))
+    return {k: pick(v) for k, v in by.items()}
+
+
 def run_res_shard(args):
     exe, seed, first, count, scratch, files = args
     rows, fails, start = [], [], first
@@ -273,6 +311,67 @@ def run(ck):
                              rc, cpu, len(fl)))
     ck.note("walker_stress_worst_group_cpu", round(worst_intact, 3))
 
+    # ---- played to and beyond the end: restart positions / jump targets / order tails on pattern-less and marker orders ----
+    pexe = vlib.build_harness("c02_play", ["c02_play.c"], variant="plain")
+    play_dir = os.path.join(scratch, "play-%d" % ck.seed)
+    shutil.rmtree(play_dir, ignore_errors=True)
+    os.makedirs(play_dir, exist_ok=True)
+    play_files = []
+    for name, data in c02_gens.restart_play_set() + c02_gens.it_rowdelay_set():
+        path = os.path.join(play_dir, name)
+        with open(path, "wb") as fh:
+            fh.write(data)
+        play_files.append(path)
+    reps = corpus_by_format(exe, scratch)
+    ck.note("formats_recognised_in_corpus", len(reps))
+    small_reps = sorted(f for f in reps.values() if os.path.getsize(f) <= 400000)
+    play_files += small_reps
+    pgroups = [(pexe, 120000, play_files[i:i + 40]) for i in range(0, len(play_files), 40)]
+    played = loops2 = ordwf_ok = 0
+    for rc, out, err, fl in vlib.pmap(run_play_group, pgroups):
+        hang = re.search(r"^HANG (\S+) (-?\d+)$", out, re.M)
+        for m in re.finditer(r"^played (\S+) load=(-?\d+) frames=(\d+) loops=(\d+) end=(-?\d+) entryok=(\d) cpu=([\d.]+)$", out, re.M):
+            played += 1
+            loops2 += int(m.group(4)) >= 2
+            ordwf_ok += m.group(6) == "1"
+            ck.count("play:" + os.path.basename(m.group(1)), nontrivial=m.group(2) == "0")
+            if float(m.group(7)) > 10.0 + 2e-6 * os.path.getsize(m.group(1)):
+                ck.violation("cpu@" + os.path.basename(m.group(1)), {"kind": "play", "file": m.group(1), "line": m.group(0)},
+                             "%s: load + playing two passes took %s s CPU" % (os.path.basename(m.group(1)), m.group(7)))
+        if hang or rc != 0:
+            bad = hang.group(1) if hang else fl[0]
+            where = ("load" if hang and hang.group(2) == "-1" else "frame %s" % hang.group(2)) if hang else "rc=%s" % rc
+            ck.violation(("hang@" if hang else "crash@") + os.path.basename(bad), {"kind": "play", "file": bad, "stderr": err},
+                         "%s (unmodified): %s never returned while the module was loaded and played through its end (%s)" % (
+                             os.path.basename(bad), "xmp_load_module_from_memory" if "load" in where else "xmp_play_frame", where))
+    ck.note("modules_played_through_their_end", {"files": played, "two_passes_completed": loops2,
+                                                 "ordwf_sufficient_condition_holds": ordwf_ok})
+
+    # ---- every truncation point: one small file per recognised format, memory test + load of its prefixes ------------
+    params = (768, 4096, 5, 200) if quick else (65536, 65536, 1, 4000)
+    rep_list = sorted(reps.values(), key=lambda f: (os.path.getsize(f), f))
+    tgroups = [(pexe, params, rep_list[i::16]) for i in range(16) if rep_list[i::16]]
+    swept = points = 0
+    worst_pref = (0.0, "", 0)
+    for rc, out, err, fl in vlib.pmap(run_trunc_group, tgroups):
+        hang = re.search(r"^HANG (\S+) (-?\d+)$", out, re.M)
+        for m in re.finditer(r"^swept (\S+) points=(\d+) maxcpu=([\d.]+) at=(\d+)$", out, re.M):
+            swept += 1
+            points += int(m.group(2))
+            ck.count("trunc:" + os.path.basename(m.group(1)), nontrivial=True)
+            if float(m.group(3)) > worst_pref[0]:
+                worst_pref = (float(m.group(3)), os.path.basename(m.group(1)), int(m.group(4)))
+            if float(m.group(3)) > 10.0:
+                ck.violation("cpu@prefix:" + os.path.basename(m.group(1)), {"kind": "trunc", "file": m.group(1), "length": int(m.group(4))},
+                             "%s cut at %s bytes: test + load took %s s CPU" % (os.path.basename(m.group(1)), m.group(4), m.group(3)))
+        if hang or rc != 0:
+            bad = hang.group(1) if hang else fl[0]
+            ck.violation(("hang@prefix:" if hang else "crash@prefix:") + os.path.basename(bad),
+                         {"kind": "trunc", "file": bad, "length": int(hang.group(2)) if hang else -1, "stderr": err},
+                         "%s cut at %s bytes: test/load from memory did not return (rc=%s)" % (
+                             os.path.basename(bad), hang.group(2) if hang else "?", rc))
+    ck.note("truncation_sweep", {"formats": swept, "prefixes_loaded": points, "slowest_prefix": worst_pref})
+
     # ---- measured search ------------------------------------------------------------------------
     files = [f for f in vlib.corpus_files() if os.path.getsize(f) <= (300000 if quick else 3000000)]
     syn_dir = os.path.join(scratch, "syn-%d" % ck.seed)
@@ -358,6 +457,20 @@ def replay(ck, rp):
         return c02_iff.replay(ck, r)
     if r.get("kind") == "umx":
         return c02_iff.replay_umx(ck, r)
+    if r.get("kind") in ("play", "trunc"):
+        pexe = vlib.build_harness("c02_play", ["c02_play.c"], variant="plain")
+        if r["kind"] == "play":
+            rc, out, err = vlib.run_exe(pexe, ["play", "120000", r["file"]], timeout=120)
+        else:
+            L = max(0, r.get("length", 0))
+            data = open(r["file"], "rb").read()[:L]
+            cut = os.path.join(vlib.OUT, "c02", "replay-cut.bin")
+            with open(cut, "wb") as fh:
+                fh.write(data)
+            rc, out, err = vlib.run_exe(pexe, ["trunc", str(L), str(L), "1", "0", cut], timeout=120)
+        print(out.decode("latin-1")[-800:])
+        print(err[-800:])
+        return 0 if rc == 0 else 1
     if r.get("kind") == "intact":
         wraps = ["-Wl,--wrap=malloc", "-Wl,--wrap=calloc", "-Wl,--wrap=realloc", "-Wl,--wrap=free"]
         exe = vlib.build_harness("c02_res", ["c01_fuzz.c"], variant="plain", defines=["WRAP_ALLOC"], extra=wraps)
